@@ -303,6 +303,7 @@ func runC08(p *core.Prog, r *core.Result) {
 		"R8.14 two different values a function references are never written as one: the encoder's memo tables are consulted and filled only under the value being encoded itself, an interface value that keeps the object alive (C07's R7.12), and the decoder drops no element whose insertion fails (C07's R7.16: a dict keyed by functions loses those entries, see the known finding) - a key derived from the value (the address of a tuple's first element, which a tuple shares with its prefix slices) makes `flags = base[:2]` a back-reference to `base`, so editing the slice bound leaves the fingerprint unchanged",
 		"R8.15 every kind of predeclared value is fingerprinted in finite time: no Attr method of a module type answers with a newly allocated object of a type that has attributes itself (the encoder walks HasAttrs values attribute by attribute and stops only at objects it has met before, so attributes allocated on demand - a label's parent, whose parent is again new - never end and the process dies of stack exhaustion)",
 		"R8.16 changing any code or value the function references changes the fingerprint - including what is bound below the target() call: the environment is not computed by code that runs while the module is executing (loadFunction, (*function).load, the builtins of build files), where ModuleEnv skips globals that are not assigned yet and a free variable assigned after the decorator is a nil cell (C02's R2.5, extended to the builtins)",
+		"R8.17 a fingerprint of any size reads back: every multi-byte operand of the decoder is read completely or the read fails (C15's short-read obligation of R15.1: the reader uses io.ReadFull, or panics on a short count) - a buffered reader's Read returns what is left in its buffer, so an operand across a refill boundary is read short and large environments fail to fingerprint or to load back",
 		"R8.1 host pickler and unpickler agree: every (module, name) the pickler produces has an unpickler case that checks exactly the arity of the tuple the pickler builds",
 		"R8.2 for every in-module value type with attributes, the names it advertises (AttrNames) are names it answers (Attr): the encoder's has-attrs branch never encodes a nil",
 		"R8.3 a pickler case whose arguments are an open environment (can contain the subject again, since recursion is enabled) needs an in-progress guard, because NEWOBJ results are memoized only after their arguments",
@@ -415,6 +416,7 @@ func runC08(p *core.Prog, r *core.Result) {
 	checkEnvVerdictWholeEquality(p, r, "R8.12")
 	checkKindsDistinguishable(p, r, unpicklers, "R8.13")
 	checkAttrsNotGenerative(p, r, "R8.15")
+	r.Floor("R8.17", importMatching(p, r, runC15, "C15", "R15.1", "short-read", "R8.17"), 1, "obligations on complete reads of the decoder")
 	checkEnvNotDuringLoad(p, r, "R8.16", "an edit to what is bound below the target() call leaves the fingerprint equal, and a free variable assigned after the decorator makes the fingerprint fail with a nil dereference")
 
 	// ---- R8.14 two different values are never written as one (the memo obligations of C07)
